@@ -1,6 +1,7 @@
 package main
 
 import (
+	"go/token"
 	"strings"
 
 	"golang.org/x/tools/go/ssa"
@@ -69,7 +70,7 @@ func init() {
 	register(&Prop{
 		ID:         "C01",
 		Title:      "Single-item operations behave as a sequential key-to-item map",
-		Decided:    "the representation invariant I1 (SortedKeys is exactly the sorted key set of Data) is preserved by every mutator on every path, and every access to Data uses the table's own key derivation: (R1) only core functions write Table.Data/SortedKeys after construction and each of them is a checked mutator; (R2) path-case analysis of each mutator: net change of Data[k] (absent→present, present→absent, overwrite) is matched by exactly the corresponding insertion (followed by a sort) or binary-search removal of k in SortedKeys, presence being established by a comma-ok lookup of the same key before the change; reset resets both; (R3) the key operand of every Data lookup/update/delete derives from keySchema.GetKey(t.KeySchema, t.AttributesDef, ·) of the same table (or, on the search path, from SortedKeys/index entries); (R4) the map stored under a key is a fresh copy (or the map already stored there), never a caller's map; (R5) UpdateItem on an absent key starts from a copy of the request key; (R7) GetItem's output derives from Data[key] with key derived from the request key, through conversion/copy only. By induction over histories I1 holds in every reachable state, which is what makes GetItem/Scan/ItemCount agree; (R8) no function on the key derivation path calls a text or number transformation (strings.*, strconv.*, bytes.*, math.*, regexp) other than a join: distinct key values never fold into one key string.",
+		Decided:    "the representation invariant I1 (SortedKeys is exactly the sorted key set of Data) is preserved by every mutator on every path, and every access to Data uses the table's own key derivation: (R1) only core functions write Table.Data/SortedKeys after construction and each of them is a checked mutator; (R2) path-case analysis of each mutator: net change of Data[k] (absent→present, present→absent, overwrite) is matched by exactly the corresponding insertion (followed by a sort) or binary-search removal of k in SortedKeys, presence being established by a comma-ok lookup of the same key before the change; reset resets both; (R3) the key operand of every Data lookup/update/delete derives from keySchema.GetKey(t.KeySchema, t.AttributesDef, ·) of the same table (or, on the search path, from SortedKeys/index entries); (R4) the map stored under a key is a fresh copy (or the map already stored there), never a caller's map; (R5) UpdateItem on an absent key starts from a copy of the request key; (R7) GetItem's output derives from Data[key] with key derived from the request key, through conversion/copy only. By induction over histories I1 holds in every reachable state, which is what makes GetItem/Scan/ItemCount agree; (R8) no function on the key derivation path calls a text or number transformation (strings.*, strconv.*, bytes.*, math.*, regexp) other than a join: distinct key values never fold into one key string; (R9) where an update builds its working item, 'start from a copy of the request's key' is selected by the presence flag of the Data lookup under the request's key and by nothing else – a flag overwritten by another verdict (the condition's) creates items without their key attributes.",
 		NotDecided: "contents of items after an update (C07), injectivity of the key encoding (C13), value-level equality of returned items (C10), ownership below the top-level map (C14).",
 		Assumes:    []string{"I1 is assumed at function entry when discharging a mutator (induction hypothesis); the branch 'binary search did not find a key that a lookup just found' is infeasible under I1 and dropped"},
 		Rules: []RuleDef{
@@ -99,33 +100,7 @@ func init() {
 				}
 				e.minCount("R1", 6)
 			}},
-			{ID: "R2", Desc: "path-case analysis of every Data/SortedKeys mutator against the I1 case table (T-CASE)", Run: func(e *Engine) {
-				cs := e.coreModel()
-				if !e.anchor("R2", "core model", cs == nil) {
-					return
-				}
-				tc := &tcase{e: e, spec: tablePair(cs)}
-				seen := map[*ssa.Function]bool{}
-				for _, f := range []*typesVar{cs.Data, cs.SortedKeys} {
-					for fn, accs := range e.writersOf(f, e.all) {
-						if seen[fn] {
-							continue
-						}
-						seen[fn] = true
-						allFresh := true
-						for _, a := range accs {
-							if !a.Fresh {
-								allFresh = false
-							}
-						}
-						if allFresh {
-							continue
-						}
-						tc.run("R2", fn)
-					}
-				}
-				e.minCount("R2", 3)
-			}},
+			{ID: "R2", Desc: "path-case analysis of every Data/SortedKeys mutator against the I1 case table (T-CASE)", Run: c01R2},
 			{ID: "R3", Desc: "key operand of every Data access derives from the table's own key derivation (provenance)", Run: func(e *Engine) {
 				cs := e.coreModel()
 				if !e.anchor("R3", "core model", cs == nil) {
@@ -278,6 +253,7 @@ func init() {
 					}
 				}
 			}},
+			{ID: "R9", Desc: "an upsert starts from the request's key exactly when the key is absent (the branch is decided by the presence lookup only)", Run: c01R9},
 		},
 	})
 }
@@ -330,5 +306,121 @@ func c01R8(e *Engine) {
 	}
 	if n < 3 {
 		e.fail("R8", "count:R8", "-", "only %d functions on the key derivation path", n)
+	}
+}
+
+// c01R2: T-CASE over every mutator of the table pair (shared with C02.R10).
+func c01R2(e *Engine) {
+	cs := e.coreModel()
+	if !e.anchor("R2", "core model", cs == nil) {
+		return
+	}
+	tc := &tcase{e: e, spec: tablePair(cs)}
+	seen := map[*ssa.Function]bool{}
+	for _, f := range []*typesVar{cs.Data, cs.SortedKeys} {
+		for fn, accs := range e.writersOf(f, e.all) {
+			if seen[fn] {
+				continue
+			}
+			seen[fn] = true
+			allFresh := true
+			for _, a := range accs {
+				if !a.Fresh {
+					allFresh = false
+				}
+			}
+			if allFresh {
+				continue
+			}
+			tc.run("R2", fn)
+		}
+	}
+	e.minCount("R2", 3)
+}
+
+// c01R9: Table.Update starts a new item from the request's key when the key is absent and from a copy of the stored item
+// otherwise. The branch must be decided by the comma-ok result of the lookup in Data – if the variable holding it is
+// reused for another verdict, an upsert whose condition holds starts from an empty item and the created item lacks its key
+// attributes (it is stored under a key it does not carry).
+func c01R9(e *Engine) {
+	cs := e.coreModel()
+	if !e.anchor("R9", "core model", cs == nil) {
+		return
+	}
+	n := 0
+	for _, fn := range e.funcs("core") {
+		instrs(fn, func(in ssa.Instruction) {
+			c, ok := in.(*ssa.Call)
+			if !ok || c.Call.StaticCallee() == nil || !isMapCopyFunc(c.Call.StaticCallee()) || len(c.Call.Args) != 1 {
+				return
+			}
+			// copyItem(input.Key): the argument is the request's Key field itself
+			kf, _ := loadedFieldDeep(c.Call.Args[0])
+			if kf == nil || kf.Name() != "Key" || !strings.HasSuffix(fieldOwner(kf), "Input") {
+				return
+			}
+			n++
+			construct := e.fname(fn) + ":create-from-key-iff-absent"
+			// the deciding condition: the branch whose successor this block is
+			var last Cond
+			found := false
+			if d := c.Block().Idom(); d != nil {
+				if ifi, isIf := d.Instrs[len(d.Instrs)-1].(*ssa.If); isIf && (d.Succs[0] == c.Block()) != (d.Succs[1] == c.Block()) {
+					last, found = normCond(Cond{ifi.Cond, d.Succs[0] == c.Block()}), true
+				}
+			}
+			if !found {
+				e.fail("R9", construct, e.ipos(c), "the working item is started from the request's key without a deciding presence test: an update of an existing item loses every other attribute")
+				return
+			}
+			// leaves of the deciding condition through negation and phis
+			var leaves []ssa.Value
+			seen := map[ssa.Value]bool{}
+			var walk func(v ssa.Value)
+			walk = func(v ssa.Value) {
+				if seen[v] {
+					return
+				}
+				seen[v] = true
+				switch x := v.(type) {
+				case *ssa.Phi:
+					for _, ed := range x.Edges {
+						walk(ed)
+					}
+				case *ssa.UnOp:
+					if x.Op == token.NOT {
+						walk(x.X)
+						return
+					}
+					leaves = append(leaves, v)
+				default:
+					leaves = append(leaves, v)
+				}
+			}
+			walk(last.V)
+			bad := ""
+			for _, l := range leaves {
+				ex, isEx := l.(*ssa.Extract)
+				if isEx && ex.Index == 1 {
+					if lk, isLk := ex.Tuple.(*ssa.Lookup); isLk {
+						if f, _ := loadedField(lk.X); f == cs.Data {
+							continue
+						}
+					}
+				}
+				bad = l.Name() + " = " + l.String()
+			}
+			switch {
+			case bad != "":
+				e.fail("R9", construct, e.ipos(c), "whether the working item starts from the request's key is decided (also) by %s, not only by the presence of the key in Data: an upsert can start from an empty item and store an item without its key attributes", bad)
+			case last.Val:
+				e.fail("R9", construct, e.ipos(c), "the item is started from the request's key when the key IS present")
+			default:
+				e.pass("R9", construct, e.ipos(c), "start-from-key is selected by the presence flag of the Data lookup, on its absent side")
+			}
+		})
+	}
+	if n == 0 {
+		e.undecided("R9", "core:create-from-key", "-", "no place starts a working item from the request's key")
 	}
 }
